@@ -150,4 +150,32 @@ PROPS = {
         "level_text": "Theorems for every text (Props/C25.lean, positions = UTF-8 byte offsets): count_lines = number of newlines + 1; the newline table is strictly increasing and bounded by the length; for an index within the text get_pos_pair returns (l, c) with lineStart l + c = index and l = number of newlines strictly before the index; for an index past the end the line is the last line and the column is measured from its start; line_span is defined exactly for lines below the count and lies within the raw line. Correspondence + oracle: all strings up to length 4 (thorough 6) over {a, space, LF, CR} and random strings over an alphabet rich in LF/CRLF/CR/tab/NBSP/U+2028/multi-byte letters; every line index up to lines+2 and every byte index up to len+10 compared with the model and with answers recomputed from split/trim.",
         "level_note": BASE_NOTE,
     },
+    "C03": {
+        "sub": "c03", "functional": True,
+        "status": "partial: layout-insensitivity of the pieces (keyword case, x/X and R/r prefixes, blanks shift spans only, comments dropped, comment token ends at the line end, numeric tokens denote their value via C05, all spans inside the text) are theorems; 'render(statements) parses to statements' for whole programs is exercised by the correspondence (implementation = model = generated statements), not proved; the consequence for assembled images is covered by the assembler properties' checks",
+        "assumptions": ["Unicode classes of the lexer (\\w, \\d) and char::to_uppercase are the tables regenerated into Gen/UniTables.lean from the implementation on every run", "F1/F2 repaired in /repo (fix: commit ce55f21)"],
+        "level_text": "Theorems for every input (Props/C03.lean): keyword recognition depends only on the upper-cased spelling; hex and register prefixes are case-irrelevant; lexing from a shifted offset yields the same tokens shifted (so leading blanks/tabs only move spans); parse_ast runs on the token list with comments filtered out; a comment token stops before the line end; error spans lie inside the text. Correspondence + oracle: every string of length <= 3 (thorough 4) over a 40-symbol alphabet and random token soups token-by-token; 3,000 (thorough 50,000) generated statement lists covering every opcode/alias/directive rendered in two random layouts each, parsed by implementation and model (values and byte spans compared) and compared with the generated statements.",
+        "level_note": BASE_NOTE,
+    },
+    "C04": {
+        "sub": "c04", "functional": True,
+        "status": "proved for the model: every error of parse_ast (lexical or syntactic) has a span a..b with a <= b <= len(text); the lexer makes progress on every token; Offset::new width panics unreachable. 'never panics' on the Rust side (slicing, expect, unwrap) is not a statement about the total model: it is decided by the correspondence run under catch_unwind",
+        "assumptions": ["F1/F2 repaired in /repo (fix: commit ce55f21)", "Unicode tables regenerated from the implementation (Gen/UniTables.lean)"],
+        "level_text": "Theorems for every text (Props/C04.lean, Lemmas/ParseSpan.lean): all tokens and the lexer's error lie inside the text; the parser never changes its token vector and every error it returns carries the cursor span of some token (or 0..0), hence parse_ast's error span satisfies a <= b <= len; lexOne consumes >= 1 character; the Offset widths used never reach the width assertions. Correspondence + oracle: 16,000 (thorough 400,000) inputs in three streams (token soups incl. lone CR/NUL/non-ASCII, mutated generated programs, arbitrary Unicode scalars from all planes) + 44 targeted literals (backslash before EOL/EOF, multi-byte after backslash, 65534/65535/65536-byte and 70000-char literals, huge numbers); parse_ast under catch_unwind; result, message and span compared with the model; no panic, span on char boundaries within the input.",
+        "level_note": BASE_NOTE,
+    },
+    "C05": {
+        "sub": "c05", "functional": True,
+        "status": "proved: for every digit string (any length, leading zeros) the decimal, hex and register validators accept exactly the in-range values and return them, lifted to lexOne for decimal/-decimal/register tokens standing alone; operand conversion accepts exactly the values that fit, for every width 1..16 and both token kinds. partial: the hex and #-forms are lifted to lexOne by dispatch lemmas (Lemmas/LexTok.lean) but the per-context statements for .fill/.blkw non-zero are checked by the exhaustive oracle, not restated as theorems",
+        "assumptions": [],
+        "level_text": "Theorems (Props/C05.lean, Lemmas/LexNum.lean): from_str_radix on a digit string = the written value iff within [lo, hi] (positive and negative accumulation, overflow order as in Rust); lex_unsigned_dec/lex_signed_dec/lex_unsigned_hex/lex_signed_hex/lex_reg on every digit string; lexOne on digits/-digits/R+digits followed by a non-word character; Offset conversion of unsigned/signed tokens into signed/unsigned N-bit fields accepts iff the value fits (N = 1..16). Correspondence + oracle: quick = 212 integers (stride 997 + all boundaries +-3) x 6-10 notations x (bare token + 9 operand contexts); thorough = every integer in [-70000, 140000]; registers R/r 0..299 with leading zeros; 40-50 digit literals.",
+        "level_note": BASE_NOTE,
+    },
+    "C36": {
+        "sub": "c36", "functional": True,
+        "status": "partial: for every operand kind the printed text is proved to lex back to a token that converts to the same operand (string literals over the allowed characters for every string; signed/unsigned offsets for every width and value; registers; mnemonics incl. BR variants); the composition over a whole statement line is exercised by the correspondence (parse -> print -> parse on implementation and model), not proved",
+        "assumptions": ["char::escape_debug outside ASCII = Gen/UniTables.lean escRanges (regenerated); only ASCII is inside the property's scope"],
+        "level_text": "Theorems (Props/C36.lean, Lemmas/PrintLex.lean): scanStr (escape s) = s for every string over printable ASCII/tab/LF/CR/NUL, hence lexOne of the printed literal = String s; valOf (decimal digits of n) = n; '#'+decimal of an unsigned field value lexes to Unsigned v and converts back to v; '#'+signed decimal of a signed field value lexes to a token that converts back to v (N = 1..16); R0-R7; all 32 mnemonics and the 8 BR/NOP spellings by kernel evaluation. Correspondence + oracle: 2,500 (thorough 40,000) generated programs parsed, printed (Display compared with the model's printer byte for byte) and reparsed, statements compared up to spans; 1,250 (thorough 20,000) statements with Unicode labels and literals (oracle applied only to literals inside the property's scope).",
+        "level_note": BASE_NOTE,
+    },
 }
